@@ -326,6 +326,10 @@ def run(ctx):
                 viol.append(1)
                 ctx.violation({"kind": "property", "what": "relate did not return: the process aborted (native stack overflow) or hung at step %d" % len(tr),
                                "case": sx.to_sexp(L.harness_case(c[0], c[1], c[2][:len(tr) + 1])), "harness": (o or "")[:300]})
+            if fam in ("numeric-chain", "through-bound") and any(sr.kind == "Panic" for sr in tr) and len(viol) < 3:
+                viol.append(1)
+                ctx.violation({"kind": "property", "what": "relate panicked on a well-kinded history: " + str(tr[-1].msg)[:200],
+                               "case": sx.to_sexp(L.harness_case(c[0], c[1], c[2][:len(tr)]))})
             good_cases.append(c)
             good_traces.append(tr)
             nrel = 0
@@ -368,7 +372,7 @@ def run(ctx):
     ctx.cov["relate_outcomes"] = stats
     ctx.cov["model_mismatches"] = mism_total
     ctx.cov["rule"] = ("scripts on one real InferenceTable: up to 3 universes, 8 variables (general/int/float/lifetime[/const]) in random universes, 1-4 relate calls per table on pairs derived from a common skeleton "
-                       "(variables swapped in/out, so that unifiable, cyclic and universe-violating pairs are frequent); families: the 11 relate scenarios of infer/test.rs, the deterministic through-bound family (1012 two-/three-step histories: a low-universe variable related with a type that reaches a higher-universe type / lifetime / const placeholder, or an unknown to be promoted, only through the stored value of an already-bound variable; 10 stored values x 7 nestings x both argument orders x both binding orders x 8 universe layouts), the full head-constructor sweep "
+                       "(variables swapped in/out, so that unifiable, cyclic and universe-violating pairs are frequent); families: the 11 relate scenarios of infer/test.rs, the deterministic through-bound family (1012 two-/three-step histories: a low-universe variable related with a type that reaches a higher-universe type / lifetime / const placeholder, or an unknown to be promoted, only through the stored value of an already-bound variable; 10 stored values x 7 nestings x both argument orders x both binding orders x 8 universe layouts), the numeric-chain family (144 histories: general unknown := int / float unknown, the numeric unknown := scalar afterwards, then the general unknown is used directly / nested / against the wrong scalar / through other unknowns; three step orders; a panic is a violation), the full head-constructor sweep "
                        "(36 type forms pairwise, 7x7 lifetimes, 6x6 consts, 3 variances), the property's fragment under Invariant, lifetime-free types under all variances, and an extended stream (arrays/consts, aliases, fn pointers with binders). "
                        "non-trivial = a relate whose two terms are not both leaves; distinct by (pair, history length)")
     if not ok:
